@@ -16,7 +16,7 @@ vars == <<i, bad, odd>>
 
 KindOK(ev) ==
   IF ev.kind = "ok" THEN Conforms(ev.content)
-  ELSE /\ ev.kind \in {"nocount", "noinfo", "noname", "end", "start"}
+  ELSE /\ ev.kind \in {"nocount", "noinfo", "noname", "end", "start", "words", "wrapsum"}
        /\ IsErrorLayout(ev.content) /\ ~EmptyRangePastEnd(ev.content)
        /\ Extract(ev.content).err = (CASE ev.kind = "nocount" -> "NoCount" [] ev.kind = "noinfo" -> "NoInfo"
                                         [] ev.kind = "noname" -> "MissingName" [] OTHER -> "RangeOutside")
